@@ -27,7 +27,7 @@ ASSUMPTIONS = ["admissible families as documented in the code: star (n_clusters<
 EVAL_COUNTER = "calls"
 REQUIRED = {"quick": {"calls": 1500, "calls_with_candidates": 1200, "chosen:star": 200, "chosen:switch": 100,
                       "chosen:reallocation": 5, "chosen:double_star": 3, "fits_score_checked": 100, "no_split_calls": 50,
-                      "synthetic_calls": 2000, "considered:reallocation": 300, "considered:double_star": 300},
+                      "synthetic_calls": 2000, "considered:reallocation": 300, "considered:double_star": 300, "explorable_sets_checked": 200},
             "thorough": {"calls": 30000, "san:calls": 2000, "chosen:reallocation": 100, "chosen:double_star": 50}}
 SHARD_TIMEOUT = {"quick": 1500, "thorough": 7000}
 
@@ -62,6 +62,18 @@ class State:
         self.mode = "fit"
         self.fit_had_double_star = False
         self.fit_calls = 0
+        self.cur = None
+        orig_fit = vars(kk.Kauri)["fit"]
+        st = self
+
+        def fit(self_, X, y=None):
+            st.cur = self_
+            try:
+                return orig_fit(self_, X, y)
+            finally:
+                st.cur = None
+        fit.__wrapped__ = orig_fit
+        self.patcher.setattr(kk.Kauri, "fit", fit)
 
     def close(self):
         self.patcher.restore()
@@ -96,6 +108,29 @@ class State:
                          min_leaf, tuple(int(x) for x in leaves), tuple(int(x) for x in feats))
         state_desc = {"n": n, "n_clusters": n_clusters, "K_max": K_max, "n_leaves": n_leaves, "min_leaf": min_leaf,
                       "leaves_to_explore": leaves, "features": feats, "labels": labels, "leaf_of": leaf_of}
+        # inside a real fit: the leaves handed over as explorable are exactly the current leaves that the structural
+        # limits allow to split (depth below max_depth, at least min_samples_split samples)
+        est = self.cur
+        if self.mode == "fit" and est is not None and hasattr(est, "tree_"):
+            t = est.tree_
+            max_depth = est.max_depth if est.max_depth is not None else n
+            want = set()
+            for j in range(n_leaves):
+                members = np.where(leaf_of == j)[0]
+                if len(members) == 0:
+                    continue
+                node = ref.route(t, X[members[0]])[1]
+                if t.depths[node] < max_depth and len(members) >= est.min_samples_split:
+                    want.add(j)
+            got = set(int(x) for x in leaves)
+            ctx.count("explorable_sets_checked")
+            if got != want:
+                missing, extra = sorted(want - got), sorted(got - want)
+                ctx.violation("explorable-leaves", "explorable-leaves-" + ("missing" if missing else "extra"),
+                              observed={"handed_to_search": sorted(got), "missing": missing, "extra": extra,
+                                        "depths": {int(j): int(t.depths[ref.route(t, X[np.where(leaf_of == j)[0][0]])[1]]) for j in sorted(want | got)},
+                                        "max_depth": max_depth, "min_samples_split": est.min_samples_split},
+                              expected=sorted(want))
         returned = None
         if split.leaf >= 0 and gain > 0:
             lt, rt, leaf, feat, thr = int(split.left_target), int(split.right_target), int(split.leaf), int(split.feature), float(split.threshold)
@@ -182,6 +217,12 @@ def run_case(case, ctx, st):
         if rng.random() < 0.5:
             params.pop("max_depth", None)
             params.pop("max_leaves", None)
+        if i % 4 == 1:
+            # deep, unbalanced growth against a binding depth limit: many clusters, small leaves, max_depth 3..5
+            params.update(max_depth=int(rng.integers(3, 6)), max_clusters=int(rng.integers(5, 10)), min_samples_leaf=1,
+                          min_samples_split=2)
+            params.pop("max_leaves", None)
+            params.pop("max_features", None)
         y = None
         if pre:
             y = gen.sym_matrix(rng, n, ["indefinite", "psd"][int(rng.integers(0, 2))])
